@@ -9,6 +9,7 @@ import RcVerif.Model.AuthIp
 import RcVerif.Model.Elastic
 import RcVerif.Model.ConnIO
 import RcVerif.Model.PoolBan
+import RcVerif.Model.ConnIn
 /-
   Line-protocol driver: one request per input line, one canonical answer per
   output line. Core-only, compiled as `rcdriver`.
@@ -474,8 +475,9 @@ def poolLine (rest : String) : String :=
         let (s, outs, bad) := acc
         let fin (s' : PoolBan.St) (res : String) := (s', outs ++ [res ++ " " ++ poolSummary s'], bad)
         let showGet (r : Option Nat) := match r with | some c => s!"c{c}" | none => "nil"
-        let showReq (o : PoolBan.Out) := match o with
+        let showReq (o : PoolBan.Served) := match o with
           | .fwd c => s!"fwd c{c}"
+          | .lost _ => "err " ++ hexOrDash Gen.strErrBackendClosed
           | .err => "err " ++ hexOrDash Gen.strErrUnKnownProxyPoolConnError
         match op with
         | ["g", p] => match p.toNat? with
@@ -483,6 +485,9 @@ def poolLine (rest : String) : String :=
           | none => (s, outs, true)
         | ["l", c] => match c.toNat? with
           | some c => fin (PoolBan.lose s c) "-"
+          | none => (s, outs, true)
+        | ["v", c] => match c.toNat? with
+          | some c => fin (PoolBan.vanish s c) "-"
           | none => (s, outs, true)
         | ["d", p, ok] => match p.toNat? with
           | some p => fin (PoolBan.setDial s p (ok != "0")) "-"
@@ -496,11 +501,34 @@ def poolLine (rest : String) : String :=
         | ["S", p, b] => match p.toNat? with
           | some p => fin (PoolBan.setIsSlave s p (b == "1")) "-"
           | none => (s, outs, true)
-        | ["r"] => let (s', o) := PoolBan.request s true; fin s' (showReq o)
-        | ["w"] => let (s', o) := PoolBan.request s false; fin s' (showReq o)
+        | ["r"] => let (s', o) := PoolBan.serve s true; fin s' (showReq o)
+        | ["w"] => let (s', o) := PoolBan.serve s false; fin s' (showReq o)
         | _ => (s, outs, true)) (PoolBan.init m (rep == 1), [], false)
       if bad then "bad-op" else String.intercalate " ; " outs
     | _, _ => "bad-op"
+  | _ => "bad-op"
+
+/-! ### connin: `connin <limit> | <hex chunk> ; <hex chunk> ; ...` -/
+def conninLine (rest : String) : String :=
+  match rest.splitOn "|" with
+  | [hd, chunks] =>
+    match hd.trimAscii.toString.toNat? with
+    | none => "bad-op"
+    | some limit =>
+      let toks := ((chunks.splitOn ";").map (fun t => t.trimAscii.toString)).filter (· ≠ "")
+      let step := fun (acc : Elastic.Pool × ConnIn.InConn × Nat × Bool × List String × Bool) (tok : String) =>
+        let (pool, c, n, closed, outs, bad) := acc
+        match fromHex tok with
+        | none => (pool, c, n, closed, outs, true)
+        | some chunk =>
+          if closed then (pool, c, n, closed, outs ++ [s!"n={n} left=0 open=0"], bad)
+          else
+            let r := ConnIn.feed goTables goSlot limit pool c chunk
+            let n' := n + r.1.length
+            if r.2.2.2 then (r.2.1, r.2.2.1, n', true, outs ++ [s!"n={n'} left=0 open=0"], bad)
+            else (r.2.1, r.2.2.1, n', false, outs ++ [s!"n={n'} left={r.2.2.1.inb.buffered} open=1"], bad)
+      let (_, _, _, _, outs, bad) := toks.foldl step (({} : Elastic.Pool), ({} : ConnIn.InConn), 0, false, [], false)
+      if bad then "bad-op" else String.intercalate " ; " outs
   | _ => "bad-op"
 
 def stepLine (line : String) : String :=
@@ -515,6 +543,7 @@ def stepLine (line : String) : String :=
   if line.startsWith "elastic " then elasticLine (line.drop 8).toString else
   if line.startsWith "connio " then connioLine (line.drop 7).toString else
   if line.startsWith "pool " then poolLine (line.drop 5).toString else
+  if line.startsWith "connin " then conninLine (line.drop 7).toString else
   match (line.trimAscii.toString.splitOn " ").filter (· ≠ "") with
   | ["monitor", p1, p2] => if Route.monitorCycle (p1 != "0") (p2 != "0") then "banned" else "clear"
   | ["hash", k] =>
